@@ -41,6 +41,8 @@ pub enum LinkFault {
     SubLayoutByUnauthorizedFunctionary(u8),
     /// the same by a key that is authorised in the step but missing from the key table
     SubLayoutByKeyMissingFromTable(u8),
+    /// a second step with the same name but another (link-less) functionary is appended to the layout
+    DuplicateStepOtherFunctionary(u8),
 }
 
 #[derive(Clone, Debug, Serialize, Deserialize)]
@@ -151,6 +153,23 @@ pub fn apply_faults(spec: &Spec) -> (World, Option<serde_json::Value>) {
                 };
                 w.links[i] = LinkFile { step: step.name.clone(), filed_under: signer, body: Body::Sub { world: Box::new(inner), placement: Placement::Proper } };
             }
+            LinkFault::DuplicateStepOtherFunctionary(n) => {
+                // a functionary of the key table that has no link file for this step name
+                let have: Vec<String> = w.links.iter().filter(|f| f.step == step.name).map(|f| key_id_str(&f.filed_under)).collect();
+                let free: Vec<KeySpec> = table.iter().filter(|k| !have.contains(&key_id_str(k))).cloned().collect();
+                let Some(k) = pick(&free, *n) else { continue };
+                let mut dup = step.clone();
+                dup.pubkeys = vec![k];
+                dup.threshold = 1;
+                w.layout.steps.push(dup);
+                // Step names are unique identifiers in the specification; with duplicates the statement is only
+                // clear-cut when every step demands at least one link explicitly, so threshold 0 (whose "at least
+                // one" the library enforces per *name*) is not combined with duplicate names.
+                let sidx = *si as usize % nsteps;
+                if w.layout.steps[sidx].threshold == 0 {
+                    w.layout.steps[sidx].threshold = 1;
+                }
+            }
             LinkFault::AliasedTableEntry(n) => {
                 // handled at the wire level: the returned alias instruction rewrites the key table
                 // B must be a different key than the one whose id it is filed under (else the entry is honest)
@@ -211,6 +230,7 @@ fn fault_strategy() -> BoxedStrategy<LinkFault> {
         2 => any::<u8>().prop_map(LinkFault::AliasedTableEntry),
         2 => any::<u8>().prop_map(LinkFault::SubLayoutByUnauthorizedFunctionary),
         1 => any::<u8>().prop_map(LinkFault::SubLayoutByKeyMissingFromTable),
+        2 => any::<u8>().prop_map(LinkFault::DuplicateStepOtherFunctionary),
     ]
     .boxed()
 }
@@ -330,7 +350,7 @@ impl Property for C02 {
                     .filter(|(si, _, _)| unmet_steps.contains(&spec.world.layout.steps[*si as usize % nsteps].name))
                     .map(|(_, _, f)| format!("{:?}", f).split(|c| c == '(' || c == ' ').next().unwrap_or("").to_string())
                     .collect();
-                let priority = ["SubLayoutByUnauthorizedFunctionary", "SubLayoutByKeyMissingFromTable", "ByUnauthorizedFunctionary", "AliasedTableEntry", "ByKeyMissingFromTable", "ByStranger", "Mislabelled", "SignedByOther", "MultiSigned", "Tamper", "Corrupt", "Garbage", "Remove"];
+                let priority = ["DuplicateStepOtherFunctionary", "SubLayoutByUnauthorizedFunctionary", "SubLayoutByKeyMissingFromTable", "ByUnauthorizedFunctionary", "AliasedTableEntry", "ByKeyMissingFromTable", "ByStranger", "Mislabelled", "SignedByOther", "MultiSigned", "Tamper", "Corrupt", "Garbage", "Remove"];
                 let cause = if spec.faults.is_empty() {
                     "enumerated-population".to_string()
                 } else {
